@@ -19,7 +19,11 @@ def fam_SA(tier, L=None, D=None, **kw):
     L0, D0, n = (4, 9, 3) if tier == "quick" else (6, 12, 4)
     L, D = L or L0, D or D0
     caps = [0, 1, 2, 3] if tier == "quick" else [0, 1, 2, 3, 4]
-    return [scen("S-A/cap%d" % c, [THR], [c], L, D, iter_destroy=[THR], iter_destroy_max_n=n, **kw) for c in caps]
+    out = [scen("S-A/cap%d" % c, [THR], [c], L, D, iter_destroy=[THR], iter_destroy_max_n=n, **kw) for c in caps]
+    # the other constructors of an empty world: World::new(), Default::default(), mem::take
+    for ctor, nm in ((1, "new"), (2, "default"), (3, "take")):
+        out.append(scen("S-A/%s" % nm, [THR], [0], L - 1, D - 2, iter_destroy=[THR], iter_destroy_max_n=2, ctor=ctor, **kw))
+    return out
 
 
 def fam_SB(tier, L=None, D=None, **kw):
